@@ -299,7 +299,7 @@ func (m Manager) GetNodesDeployCapacity(ctx context.Context, nodenames []string,
 	for _, info := range resp {
 		info.Rate /= info.Weight
 		info.Usage /= info.Weight
-		if info.Capacity == math.MaxInt64 {
+		if total == math.MaxInt64 || info.Capacity == math.MaxInt64 {
 			total = math.MaxInt64
 		} else {
 			total += info.Capacity
